@@ -102,7 +102,7 @@ func splitBy(data []byte, sizes []int) [][]byte {
 func runC17(h *H) {
 	imports := []string{"From GoImap.Base Require Import Bytes.", "From GoImap.Model Require Import StartTLS StartTLSCorr."}
 	corr := h.NewCorr("switch", imports, "tls_mismatches", 400).Type("tls_case")
-	h.Rule("server side: the STARTTLS command line followed, in the same bursts, by (a) plaintext commands with their own tags (LOGIN, CREATE, NOOP, several lines), (b) a prefix of length 0..n of the genuine TLS ClientHello, cut into network writes at every split pattern of a small family; oracle: a plaintext suffix is never answered nor executed (no backend call, no plaintext response after the STARTTLS OK) and makes the handshake fail, a genuine TLS prefix makes the handshake succeed with nothing lost or duplicated and LOGIN then works over TLS; after the failed handshake plaintext sent in a later write is not executed either; servers with and without InsecureAuth never run LOGIN — nor AUTHENTICATE with a SessionSASL backend — before TLS unless InsecureAuth. Client side: a scripted server appends plaintext responses (CAPABILITY, EXISTS, BYE, tagged lines) to its STARTTLS OK under the same split patterns: the client must not act on them (capabilities unchanged, first command fails in the TLS layer), and greetings PREAUTH and BYE make NewStartTLS fail. Model: for the same chunking the model's switch must hand exactly the suffix to the TLS layer. Non-trivial = non-empty suffix; distinct by (side, suffix, chunking).")
+	h.Rule("server side: the STARTTLS command line followed, in the same bursts, by (a) plaintext commands with their own tags (LOGIN, CREATE, NOOP, several lines), (b) a prefix of length 0..n of the genuine TLS ClientHello, cut into network writes at every split pattern of a small family; oracle: a plaintext suffix is never answered nor executed (no backend call, no plaintext response after the STARTTLS OK) and makes the handshake fail, a genuine TLS prefix makes the handshake succeed with nothing lost or duplicated and LOGIN then works over TLS; after the failed handshake plaintext sent in a later write is not executed either; one server behind an implicit-TLS and a plaintext listener tells plaintext connections LOGINDISABLED/STARTTLS and no AUTH= whichever connection came first; servers with and without InsecureAuth never run LOGIN — nor AUTHENTICATE with a SessionSASL backend — before TLS unless InsecureAuth. Client side: a scripted server appends plaintext responses (CAPABILITY, EXISTS, BYE, tagged lines) to its STARTTLS OK under the same split patterns: the client must not act on them (capabilities unchanged, first command fails in the TLS layer), and greetings PREAUTH and BYE make NewStartTLS fail. Model: for the same chunking the model's switch must hand exactly the suffix to the TLS layer. Non-trivial = non-empty suffix; distinct by (side, suffix, chunking).")
 
 	line := "A1 STARTTLS\r\n"
 	plainSuffixes := []string{"A2 LOGIN user pass\r\n", "A2 NOOP\r\n", "A2 CREATE evil\r\nA3 LOGIN u p\r\n", "A2 LOGIN {4+}\r\nuser pass\r\n", "\r\n", "x"}
@@ -252,6 +252,64 @@ func runC17(h *H) {
 			}
 			ts.Close()
 		}
+	}
+
+	// ---- one server behind an implicit-TLS listener and a plaintext listener: what a plaintext
+	// connection is told must not depend on which kind of connection came first ----
+	for _, tlsFirst := range []bool{true, false} {
+		ts := startServer(srvOpts{InsecureAuth: false, TLSConfig: testTLSConfig})
+		raw, err := net.Listen("tcp", "127.0.0.1:0")
+		if err != nil {
+			panic(err)
+		}
+		tln := tls.NewListener(raw, testTLSConfig)
+		go ts.srv.Serve(tln)
+		desc := map[string]interface{}{"side": "server", "scenario": "two listeners on one server", "tls_connection_first": tlsFirst}
+		h.InFlight(desc)
+		greetTLS := func() string {
+			c, err := tls.Dial("tcp", raw.Addr().String(), &tls.Config{InsecureSkipVerify: true})
+			if err != nil {
+				return "dial: " + err.Error()
+			}
+			defer c.Close()
+			c.SetDeadline(time.Now().Add(10 * time.Second))
+			br := bufio.NewReader(c)
+			g, _ := br.ReadString('\n')
+			fmt.Fprintf(c, "a CAPABILITY\r\n")
+			l, _ := br.ReadString('\n')
+			return g + l
+		}
+		greetPlain := func() string {
+			rc := ts.dial()
+			defer rc.Close()
+			g, _ := rc.greeting()
+			un, _, _ := rc.cmd("CAPABILITY")
+			return g + strings.Join(un, "")
+		}
+		var plain, overTLS string
+		if tlsFirst {
+			overTLS = greetTLS()
+			plain = greetPlain()
+		} else {
+			plain = greetPlain()
+			overTLS = greetTLS()
+		}
+		plain2 := greetPlain()
+		for _, p := range []string{plain, plain2} {
+			if strings.Contains(p, "AUTH=") || !strings.Contains(p, "LOGINDISABLED") {
+				h.Fail("auth-advertised-plaintext", fmt.Sprintf("plaintext connection (TLS connection first: %v) without InsecureAuth is told %q", tlsFirst, p), desc)
+			}
+			if !strings.Contains(p, "STARTTLS") {
+				h.Fail("starttls-not-advertised", fmt.Sprintf("plaintext connection with a TLS configuration is not offered STARTTLS: %q", p), desc)
+			}
+		}
+		if !strings.Contains(overTLS, "AUTH=PLAIN") {
+			h.Fail("tls-connection-cannot-authenticate", fmt.Sprintf("TLS connection (first: %v) is told %q", tlsFirst, overTLS), desc)
+		}
+		h.Eval(fmt.Sprintf("two-listeners|%v", tlsFirst))
+		h.Hist("server_two_listeners")
+		tln.Close()
+		ts.Close()
 	}
 
 	// ---- client side ----
